@@ -28,7 +28,7 @@ use crate::{
     util::{zig_i32, zig_i64},
 };
 use log::error;
-use std::{borrow::Borrow, collections::HashMap, io::Write};
+use std::{borrow::Borrow, collections::HashMap, fmt::Debug, io::Write};
 
 /// Encode a `Value` into avro format.
 ///
@@ -69,7 +69,7 @@ pub(crate) fn encode_int<W: Write>(i: i32, writer: W) -> AvroResult<usize> {
     zig_i32(i, writer)
 }
 
-pub(crate) fn encode_internal<W: Write, S: Borrow<Schema>>(
+pub(crate) fn encode_internal<W: Write, S: Borrow<Schema> + Debug>(
     value: &Value,
     schema: &Schema,
     names: &HashMap<Name, S>,
@@ -84,6 +84,23 @@ pub(crate) fn encode_internal<W: Write, S: Borrow<Schema>>(
                 fully_qualified_name.into_owned(),
             ))?;
         return encode_internal(value, resolved.borrow(), names, enclosing_namespace, writer);
+    }
+
+    // Validation accepts a value that is not wrapped in `Value::Union` for a union schema when it
+    // matches one of the branches. Write the index of that branch, otherwise the datum would lack
+    // it. `Null` and `Record` have their own handling below.
+    if let Schema::Union(union) = schema
+        && !matches!(value, Value::Union(..) | Value::Null | Value::Record(_))
+    {
+        let (index, branch) = union
+            .find_schema_with_known_schemata(value, Some(names), enclosing_namespace)
+            .ok_or_else(|| Details::EncodeValueAsSchemaError {
+                value_kind: ValueKind::from(value),
+                supported_schema: vec![SchemaKind::Union],
+            })?;
+        let mut written_bytes = encode_long(index as i64, &mut *writer)?;
+        written_bytes += encode_internal(value, branch, names, enclosing_namespace, writer)?;
+        return Ok(written_bytes);
     }
 
     match value {
